@@ -30,6 +30,7 @@ CONSTANTS
   SubTargets = {"A"}
   AutoVals = {FALSE}
   SubOneshot = {FALSE}
+  UdVals = {0}
   Senders = {"B"}
   QuitCodes = {1}
   ForeignOps = {}
